@@ -341,15 +341,58 @@ func (d Dec) Equal(o Dec) bool {
 // IsPlainInt reports whether the literal has neither fraction nor exponent.
 func IsPlainInt(lit string) bool { return !strings.ContainsAny(lit, ".eE") }
 
+// Allow switches on the listed known deviations (ids of /verif/known_findings.json); a tree that
+// denotes the text only because of an allowed deviation is reported as a known finding.
+type Allow struct {
+	Int19     bool // C02-int19: 19-digit plain integers 9223372036854775800..807 as big-number text
+	Surrogate bool // C02-surrogate: a \uD8xx\uDCxx pair decoded as two U+FFFD
+	used      string
+}
+
+// Used names the allowance that was needed ("" if none).
+func (a *Allow) Used() string {
+	if a == nil {
+		return ""
+	}
+	return a.used
+}
+
+func isInt19(lit string) bool {
+	return len(lit) == 19 && lit >= "9223372036854775800" && lit <= "9223372036854775807"
+}
+
+// fffdPairs replaces every 4-byte UTF-8 sequence by two U+FFFD (what decoding the two halves of a
+// surrogate pair separately gives).
+func fffdPairs(b []byte) []byte {
+	var out []byte
+	for i := 0; i < len(b); {
+		if b[i] >= 0xF0 && b[i] <= 0xF4 && i+3 < len(b) && b[i+1]&0xC0 == 0x80 && b[i+2]&0xC0 == 0x80 && b[i+3]&0xC0 == 0x80 {
+			out = append(out, 0xEF, 0xBF, 0xBD, 0xEF, 0xBF, 0xBD)
+			i += 4
+			continue
+		}
+		out = append(out, b[i])
+		i++
+	}
+	return out
+}
+
+func sameModuloPairs(a, b string) bool {
+	x, e1 := UnhexF(a)
+	y, e2 := UnhexF(b)
+	return e1 == nil && e2 == nil && string(fffdPairs(x)) == string(fffdPairs(y))
+}
+
 // NumDenotes decides whether an implementation number node denotes the literal (property C02).
-func NumDenotes(impl *Node, lit string) (bool, string) {
+// The first result is a short code for the kind of failure.
+func NumDenotes(impl *Node, lit string, al *Allow) (bool, string) {
 	ld, ok := ParseDec(lit)
 	if !ok {
-		return false, "literal is not a number"
+		return false, "literal-not-number: literal is not a number"
 	}
 	plainFits := false
 	if IsPlainInt(lit) {
-		if bi, ok := new(big.Int).SetString(lit, 10); ok && bi.IsInt64() {
+		if bi, ok := new(big.Int).SetString(lit, 10); ok && new(big.Int).Abs(bi).IsInt64() { // magnitude fits int64
 			plainFits = true
 		}
 	}
@@ -357,75 +400,114 @@ func NumDenotes(impl *Node, lit string) (bool, string) {
 	case 'I':
 		id, ok := ParseDec(impl.Text)
 		if !ok || !id.Equal(ld) {
-			return false, "int64 differs from the literal's value"
+			return false, "int-differs: int64 differs from the literal's value"
 		}
 		return true, ""
 	case 'F':
 		if plainFits {
-			return false, "plain integer literal fitting int64 came back as float64"
+			return false, "plain-int-as-float: plain integer literal fitting int64 came back as float64"
 		}
 		bits, err := strconv.ParseUint(impl.Text, 16, 64)
 		if err != nil {
-			return false, "bad float bits"
+			return false, "bad-float: bad float bits"
 		}
 		f := math.Float64frombits(bits)
 		want, _ := strconv.ParseFloat(lit, 64)
 		if f == want {
 			return true, ""
 		}
-		return false, fmt.Sprintf("float64 %v is not the nearest to the literal (%v)", f, want)
+		return false, fmt.Sprintf("float-not-nearest: float64 %v is not the nearest to the literal (%v)", f, want)
 	case 'B':
-		if plainFits {
-			return false, "plain integer literal fitting int64 came back as a big number"
-		}
 		txt, err := UnhexF(impl.Text)
 		if err != nil {
-			return false, "bad hex"
+			return false, "bad-hex: bad hex"
+		}
+		if plainFits {
+			if al != nil && al.Int19 && isInt19(lit) && string(txt) == lit {
+				al.used = "C02-int19"
+				return true, ""
+			}
+			return false, "plain-int-as-big: plain integer literal fitting int64 came back as a big number"
 		}
 		bd, ok := ParseDec(string(txt))
 		if !ok {
-			return false, fmt.Sprintf("big number text %q is not a number literal", txt)
+			return false, fmt.Sprintf("big-not-literal: big number text %q is not a number literal", txt)
 		}
 		if !bd.Equal(ld) {
-			return false, fmt.Sprintf("big number text %q denotes another number", txt)
+			return false, fmt.Sprintf("big-denotes-other: big number text %q denotes another number", txt)
 		}
 		return true, ""
 	}
-	return false, "not a number"
+	return false, "kind: not a number"
 }
 
 // Denotes compares an implementation tree with a specification tree (numbers as literals N(..)).
-func Denotes(impl, spec *Node) (bool, string) {
+// On failure the message starts with a short code followed by ": ".
+func Denotes(impl, spec *Node, al *Allow) (bool, string) {
 	if spec.Kind == 'N' {
 		lit, _ := UnhexF(spec.Text)
-		return NumDenotes(impl, string(lit))
+		return NumDenotes(impl, string(lit), al)
 	}
 	if impl.Kind != spec.Kind {
-		return false, fmt.Sprintf("kind %c where the text has %c", impl.Kind, spec.Kind)
+		return false, fmt.Sprintf("kind: kind %c where the text has %c", impl.Kind, spec.Kind)
 	}
 	switch spec.Kind {
 	case 'S':
 		if impl.Text != spec.Text {
-			return false, "string differs"
+			if al != nil && al.Surrogate && sameModuloPairs(impl.Text, spec.Text) {
+				al.used = "C02-surrogate"
+				return true, ""
+			}
+			return false, "string-differs: string differs"
 		}
 	case '[':
 		if len(impl.Kids) != len(spec.Kids) {
-			return false, "array length differs"
+			return false, "shape: array length differs"
 		}
 		for i := range spec.Kids {
-			if ok, why := Denotes(impl.Kids[i], spec.Kids[i]); !ok {
+			if ok, why := Denotes(impl.Kids[i], spec.Kids[i], al); !ok {
 				return false, why
 			}
 		}
 	case '{':
 		if len(impl.Kids) != len(spec.Kids) {
-			return false, "member count differs"
+			if al != nil && al.Surrogate {
+				// distinct keys may collide once their pairs are two U+FFFD each
+				norm := func(k string) string { b, _ := UnhexF(k); return string(fffdPairs(b)) }
+				cnt := map[string]int{}
+				for _, k := range spec.Keys {
+					cnt[norm(k)]++
+				}
+				implIdx := map[string]int{}
+				for i, k := range impl.Keys {
+					implIdx[norm(k)] = i
+				}
+				if len(cnt) == len(implIdx) && len(implIdx) == len(impl.Keys) {
+					for i, k := range spec.Keys {
+						j, ok := implIdx[norm(k)]
+						if !ok {
+							return false, "shape: member count differs"
+						}
+						if cnt[norm(k)] == 1 {
+							if ok, why := Denotes(impl.Kids[j], spec.Kids[i], al); !ok {
+								return false, why
+							}
+						}
+					}
+					al.used = "C02-surrogate"
+					return true, ""
+				}
+			}
+			return false, "shape: member count differs"
 		}
 		for i := range spec.Kids {
 			if impl.Keys[i] != spec.Keys[i] {
-				return false, "member names differ"
+				if !(al != nil && al.Surrogate && sameModuloPairs(impl.Keys[i], spec.Keys[i])) {
+					return false, "key-differs: member names differ"
+				}
+				al.used = "C02-surrogate"
 			}
-			if ok, why := Denotes(impl.Kids[i], spec.Kids[i]); !ok {
+			if ok, why := Denotes(impl.Kids[i], spec.Kids[i], al); !ok {
 				return false, why
 			}
 		}
